@@ -28,7 +28,7 @@ PYRIMIDINES = ("C", "U", "T", "DC", "DT")
 # corpus files (under $VERIF_REPO/tests): RNA structures with A-form stems, single model
 CORPUS_QUICK = ["1E7K_1_C.cif", "1DFU_1_M-N.cif", "4WTI_1_T-P.cif"]
 CORPUS_THOROUGH = ["1E7K_1_C.cif", "1DFU_1_M-N.cif", "4WTI_1_T-P.cif", "1ehz-assembly-1.cif", "4qln.pdb",
-                   "4qln.cif", "6FC9.cif", "184D.cif", "1JJP.cif", "6INQ.cif", "1HMH_1_E.cif",
+                   "4qln.cif", "6FC9.cif", "184D.cif", "1JJP.cif", "1HMH_1_E.cif",
                    "4gqj-assembly1.cif", "8btk_B7.cif", "488d.pdb"]
 AFORM_QUICK = ["1E7K_1_C.cif"]
 AFORM_THOROUGH = ["1E7K_1_C.cif", "1ehz-assembly-1.cif", "4qln.pdb", "4qln.cif"]
